@@ -230,6 +230,28 @@ def rule_f(repo, chk):
         f = repo.find_method(ci, m)
         subs = [n for n in own_nodes(f) if isinstance(n, ast.Subscript) and norm(n.value) == 'self._code_lines']
         chk.ob('C07.f', not subs, f, 'Script.%s does not index the code lines itself (it forwards to get_references, see C01.a)' % m)
+    # the same for every other method of Script (helpers included): a subscript of self._code_lines by anything but the decorator-validated
+    # `line` needs the range test in front of it, in the method that indexes
+    n = 0
+    for f in ci.node.body:
+        if not isinstance(f, FUNC_TYPES) or f.name in ('extract_variable', 'extract_function'):
+            continue
+        for s_ in [x for x in own_nodes(f) if isinstance(x, ast.Subscript) and norm(x.value) == 'self._code_lines']:
+            n += 1
+            idx = norm(s_.slice)
+            var = idx.split(' ')[0]
+            if var == 'line' and idx == 'line - 1' and 'validate_line_column' in decorators(f):
+                chk.ob('C07.f', True, s_, '`%s` is indexed by the validated line' % short(s_))
+                continue
+
+            def in_range(e, pol, var=var):
+                from .c01 import _range
+                r = _range(e, var)
+                return pol and r is not None and r[0] == 1 and r[1] == ('le', 'len(self._code_lines)')
+            w = gate(f, s_, in_range)
+            chk.ob('C07.f', w is None and idx == var + ' - 1', s_, '`%s` in Script.%s is reached only after 1 <= %s <= len(self._code_lines) was checked' % (short(s_), f.name, var),
+                   'unvalidated path: %s' % w if w else '', key='index|Script.%s|%s' % (f.name, norm(s_)))
+    chk.notes['C07.f other Script methods indexing _code_lines'] = n
 
 
 def rule_g(repo, chk):
